@@ -84,6 +84,8 @@ pub enum Ev {
     Watchdog,
     /// a future busy-waited on the clock without yielding (virtual time had to be forced on)
     ClockSpin,
+    /// the transport was busy for a while between two pieces of a partially accepted buffer
+    SlowWrite { conn: usize, from: u64, to: u64 },
     /// a read found the inbound stream stalled at a gate (the rest of the data has not arrived yet)
     GateHit { conn: usize, offset: usize },
 }
@@ -697,6 +699,7 @@ impl World {
             let from = vtime::now();
             vtime::advance_to(from + self.conns[conn].policy.slow_write_us);
             self.ev(Ev::Time { from, to: vtime::now() });
+            self.ev(Ev::SlowWrite { conn, from, to: vtime::now() });
         }
         let now = vtime::now();
         let c = &mut self.conns[conn];
